@@ -1,5 +1,5 @@
 //! The explicit runtime every case builds for itself: recording emitter, module filter, a fresh
-//! `ThreadLocalCtxt`, counting clock and the non-repeating counter rng.
+//! ambient context of the generated kind (`ctxts.rs`), counting clock and the non-repeating counter rng.
 
 use std::ops::ControlFlow;
 use std::sync::atomic::{AtomicU64, Ordering};
@@ -7,13 +7,19 @@ use std::sync::{Arc, Mutex};
 use std::time::Duration;
 
 use emit::event::ToEvent;
-use emit::platform::thread_local_ctxt::ThreadLocalCtxt;
 use emit::runtime::Runtime;
-use emit::{Clock, Emitter, Filter, Props, Rng, Timestamp};
+use emit::{Clock, Ctxt, Emitter, Filter, Props, Rng, Timestamp};
 
 use crate::tree::RngKind;
 
-pub type Rt = Runtime<Recorder, ModFilter, ThreadLocalCtxt, CountingClock, Option<CounterRng>>;
+/// What the interpreter needs of an ambient context: frames travel between threads, the context value
+/// is shared by them, and a captured frame owns a clone of it (`ThreadLocalCtxt` is `Copy`, the plain
+/// user contexts are a handle, the type-erased one is an `Arc`).
+pub trait TCtxt: Ctxt<Frame: Send> + Clone + Send + Sync + 'static {}
+
+impl<C: Ctxt<Frame: Send> + Clone + Send + Sync + 'static> TCtxt for C {}
+
+pub type Rt<C> = Runtime<Recorder, ModFilter, C, CountingClock, Option<CounterRng>>;
 
 /// One event as it reached the emitter.
 #[derive(Debug, Clone)]
@@ -128,12 +134,12 @@ impl Rng for CounterRng {
     }
 }
 
-pub fn build(rng: RngKind) -> (Rt, Recorder) {
+pub fn build<C: TCtxt>(rng: RngKind, ctxt: C) -> (Rt<C>, Recorder) {
     let rec = Recorder::default();
     let rt = Runtime::new()
         .with_emitter(rec.clone())
         .with_filter(ModFilter)
-        .with_ctxt(ThreadLocalCtxt::new())
+        .with_ctxt(ctxt)
         .with_clock(CountingClock(AtomicU64::new(0)))
         .with_rng(match rng {
             RngKind::Counter(seed) => Some(CounterRng::new(seed)),
